@@ -2,8 +2,8 @@ package main
 
 // Generators of channel crash (C01).
 //
-//	enum   every string over the token alphabet, in ranges (quick: lengths 0-4 over the full
-//	       alphabet A; thorough: length 5 over A and length 6 over the reduced alphabet B)
+//	enum   every string over the token alphabet, in ranges (lengths 0-4 over the full alphabet A,
+//	       475 k strings; thorough adds length 5 over the reduced alphabet B)
 //	mut    byte / token / tree mutations of /repo/tests/*.zy (a prefix of top-level forms of a
 //	       script, one to three mutations inside it)
 //	form   every special form, every reserved word, every name bound in the three
@@ -148,10 +148,7 @@ func crashGenEnum(g *Gen) {
 			g.Count("enum-ranges")
 		}
 	}
-	maxA, maxB := 3, 0
-	if os.Getenv("VERIF_C01_ENUM") == "4" {
-		maxA = 4
-	}
+	maxA, maxB := 4, 0
 	if g.Thorough() {
 		maxA, maxB = 4, 5
 	}
